@@ -285,7 +285,7 @@ LINK_HREFS = [
     "//cdn.b.fr/lib.js", "//cdn.b.notatld/lib.js", "http://b.notatld/x", "", "i.html", "z.html", "i.html#top", "sub/",
 ]
 LINK_BASE = "http://a.fr/dir/i.html"
-LINK_BASES = (LINK_BASE, LINK_BASE + "#top")
+LINK_BASES = (LINK_BASE, LINK_BASE + "#top", "http://a.fr/dir/i.html?d=2019/05/12", "http://a.fr/dir/#/edition/du-jour")
 GOOD_TLDS = ("fr", "com")
 
 
